@@ -32,7 +32,7 @@ CLAIMED = {
 
 CLAIMED.update({
     "C14": ("Proof that Task.TempDir() is a single path segment without '/', starts with the temp prefix and is at most 255 bytes for every task (all names, paths, params, tags), and a structural proof obligation (go/ssa scan, re-run on every check) that TempDir and everything it calls is deterministic: no map range, select, channel operation, time or randomness on the way to the result; the three sorted-keys helpers are proved to return the strictly sorted list of the map's keys (unique).",
-            "Assumed: SHA-1/hex/ToLower/regexp library contracts (length, alphabet), sort.Strings sorts in place, the task's identity fields are not written after NewTask. Injectivity of the name over task identities does NOT hold: the obligation TempDir.atcall.pieces-stay-separable fails (known finding F6: pieces are concatenated without separators, shown on the real code by findings/F6_tempdir_collision_test.go). Which pieces enter the hash is pinned per loop (first piece = raw process name is proved; the other pieces are covered by the determinism scan and the mutant corpus, not by a preimage contract); collision resistance of SHA-1 itself is assumed.",
+            "Assumed: SHA-1/hex/ToLower/regexp library contracts (length, alphabet), sort.Strings sorts in place, the task's identity fields are not written after NewTask. Injectivity of the name over task identities does NOT hold: the obligation TempDir.atcall.pieces-stay-separable fails (known finding F6: pieces are concatenated without separators, shown on the real code by findings/F6_tempdir_collision_test.go). Which pieces enter the hash is pinned per loop (first piece = raw process name, and one piece name_value with the RAW value per parameter and per tag are proved; the path pieces of inputs and sub-stream members are covered by the splitAllPaths step contract, the determinism scan and the mutant corpus, not by a preimage contract); collision resistance of SHA-1 itself is assumed.",
             "3/C14"),
     "C15": ("Proof of the placeholder expansion of formatCommand for every pattern, port map and value: at the single substitution site each port type (o, os, i, joined i, p, t) gets exactly the documented replacement (temp path re-encoded, FIFO path, input path with ../ prefix unless basename, joined sub-stream paths in order, parameter/tag value), a missing value never reaches the substitution (Fail), all occurrences are replaced, and placeholders are parsed as name|modifier...; proof that applyPathModifiers applies the documented meaning of each documented modifier, one per iteration, left to right (loop step contract), with the regular-expression case analysis proved as lemmas. Output-path patterns: the path function built by Process.SetOut gets, at its single substitution site, the documented value per placeholder type (input path, parameter, tag, another out-port's path), modifiers applied when present, unknown types and missing values stop the workflow. Default output name (initDefaultPathFuncs): structural determinism scan plus proof that the pieces are exactly base names of the inputs, sanitised process name, name_value of parameters, name_value of tags, port name and extension, each group in sorted-name order, joined by dots. Port discovery (initPortsFromCmdPattern): port type and name come from the placeholder, the extension is the text after the dot, every o/os placeholder gets an out-port (os flagged streaming), every i an in-port, every p without a fixed value a parameter port.",
             "Assumed: library contracts of regexp (per pattern literal: capture groups of the two modifier patterns, basename/dirname replacement), strings.Replace/Split/Join; MatchString on literal patterns is interpreted by the SMT theory of regular expressions; modifiers outside the documented grammar (e.g. '%s/a/b/') are outside the step contract. the path function of another out-port called from a SetOut pattern is an uninterpreted function of (function value, task) assumed free of side effects; capture-group axioms re.ext.group / re.join.group for the two literals of port discovery; NewOutPort/InitOutPort etc. are executed inline. Placeholder-like text inside inserted values is expanded again (known findings F5 for commands, F11 for SetOut patterns).",
@@ -61,8 +61,8 @@ CLAIMED.update({
     "C17": ("Proof of the sequential FIFO mechanism: producer ({os:}) and consumer ({i:} of a streaming IP) placeholders expand to the same path.fifo string; in Process.Run an existing FIFO is refused (Fail) before CreateFifo, the FIFO is created and the IP sent before the producing task is started, streaming outputs are never forwarded a second time; NewTask propagates the stream flag; streaming outputs are exempt from existence checks and renames; CreateFifo creates no regular file.",
             "NOT decided here: that the consumer receives exactly the producer's bytes (kernel pipe semantics, two OS processes), which of the two concurrent tasks finishes first (audit link), termination of a re-run.",
             "3/C17"),
-    "C18": ("Proof that NewTask drains the sub-stream channel of every joined in-port until it is closed and stores exactly the received sequence (whole sub-stream, once, arrival order), that formatCommand replaces the joined placeholder by the members' paths, each ../-prefixed unless absolute, joined by the separator in order, and that a joined port receives one carrier per task (createTasks); that StreamToSubStream.Run sends exactly one carrier IP whose sub-stream is its own in-port and takes nothing out of that in-port itself.",
-            "Assumed: single receiver of the sub-stream channel; the parts of a placeholder body contain no braces or bars (hypothesis of the separator clause of initPortsFromCmdPattern); capture-group axiom re.join.group for the join pattern literal; audit Upstream entries of the members: C10.",
+    "C18": ("Proof that NewTask drains the sub-stream channel of every joined in-port until it is closed and stores exactly the received sequence (whole sub-stream, once, arrival order), that formatCommand replaces the joined placeholder by the members' paths, each ../-prefixed unless absolute, joined by the separator in order, and that a joined port receives one carrier per task (createTasks); that StreamToSubStream.Run sends exactly one carrier IP whose sub-stream is its own in-port and takes nothing out of that in-port itself; that writeAuditLogs links the audit record of every sub-stream member as upstream under the member's path.",
+            "Assumed: single receiver of the sub-stream channel; the parts of a placeholder body contain no braces or bars (hypothesis of the separator clause of initPortsFromCmdPattern); capture-group axiom re.join.group for the join pattern literal; upstream linking is proved for tasks whose inputs are pairwise distinct IPs (hypothesis inputsDistinct of the clause).",
             "3/C18"),
     "C10": ("Proof that writeAuditLogs builds one record per task (id, process name, command, parameters, tags, timing), links every input's own record (looked up by path, sub-stream members included) under the input's path as Upstream, attaches that one record to every output IP and writes it next to every non-streaming output; sortedness/merging helpers of the audit tree.",
             "Assumed: inputs of one task are distinct IP objects (inputsDistinct); the sidecar JSON on disk is what the in-memory record marshals to (encoding/json, C11); reading an upstream record back from its sidecar returns the record that was written (loadedAudit abstraction). Upstream tags: decided per call (every input's tag map is offered to the task's one record; AddTags returns only if each offered tag is then present and was compatible); that the record finally holds every non-empty upstream tag is a paper argument over the two loops (the inductive invariant could not be discharged).",
